@@ -38,8 +38,23 @@ def run(ctx):
     # `get_mut(k).map(|e| ..)`, `.into_iter().for_each(..)` - is run on the entry it is applied to)
     from sym import ipaths
     by_owner = {}
+
+    def owners_of(g, depth=0):
+        """the functions in which the written entry is *looked up*: the writer itself, or - when it only writes through a
+        parameter (`fn mark_soft_deleted(&mut self)`) - the functions that call it, transitively"""
+        g = F.parent_fn(g)
+        soft_stores = [t_ for p_ in ipaths(F, g, stop=lambda n: False, depth=2) for t_, v_, w_ in p_.stores if t_[0] == "field" and t_[2] == L.SOFT]
+        looked_up = bool(soft_stores) and all(root_calls(t_) for t_ in soft_stores)
+        cs = {h.name: h for h in F.fns.values() for b_, t_ in h.calls() if t_.get("rpath") == g.name and t_["res"] == "item"}
+        if looked_up or not cs or depth >= 3:
+            return [g]
+        out = []
+        for h in cs.values():
+            out += owners_of(h, depth + 1)
+        return out
     for f, b, i, tgt, rv in writers:
-        by_owner.setdefault(F.parent_fn(f).name, []).append((f, b, i, tgt, rv))
+        for o_ in {o.name for o in owners_of(f)}:
+            by_owner.setdefault(o_, []).append((f, b, i, tgt, rv))
     for oname in sorted(by_owner):
         owner = F.fn(oname)
         seen = {}
